@@ -111,7 +111,12 @@ def q8(x):           # multiples of 1/8: exact in float32
     return round(x * 8) / 8.0
 
 
+DATES = ['20240901', '20230228', '20241231', '20240301', '20240302']
+
+
 def gen_scene(rng, sid, force=None):
+    """force: wind / taxis / const / grid=(levels, lats, lons, lat_desc, lev_desc) / dir / not_dates"""
+    force = force or {}
     nl, nla, nlo = rng.randint(2, 4), rng.randint(2, 4), rng.randint(2, 5)
     levels = sorted(rng.sample(ERA5_LEVELS[:22], nl))
     if levels[-1] - levels[0] < 200:
@@ -125,9 +130,12 @@ def gen_scene(rng, sid, force=None):
     lstep = rng.choice([0.25, 0.5, 1.0, 2.5])
     lon0 = rng.choice([-180.0, -85.0, -1.0, -0.25, 0.0, 10.0, 100.5, 170.0])
     lons = [lon0 + i * lstep for i in range(nlo)]
-    taxis = force.get('taxis') if force else rng.choice(['none', 'scalar', 'dim24', 'dim24'])
+    lat_desc, lev_desc = rng.random() < 0.7, rng.random() < 0.7
+    if 'grid' in force:
+        levels, lats, lons, lat_desc, lev_desc = force['grid']
+    taxis = force.get('taxis') or rng.choice(['none', 'scalar', 'dim24', 'dim24'])
     nsl = 24 if taxis == 'dim24' else 1
-    wind = force.get('wind') if force else rng.choice(['zero', 'uniform', 'uniform', 'varying', 'varying', 'varying'])
+    wind = force.get('wind') or rng.choice(['zero', 'uniform', 'uniform', 'varying', 'varying', 'varying'])
     dtype = rng.choice(['f8', 'f8', 'f4', 'i2'])
     rq = (lambda x: float(round(x))) if dtype == 'i2' else q8
 
@@ -146,21 +154,21 @@ def gen_scene(rng, sid, force=None):
                 cu = 0.0
             elif rng.random() < 0.15:
                 cv = 0.0
-        if force and 'const' in force:
+        if 'const' in force:
             cu, cv = force['const']
         us.append(table(wind, cu))
         vs.append(table(wind, cv))
         consts.append([cu, cv])
     return {'id': sid, 'levels': levels, 'lats': lats, 'lons': lons, 'taxis': taxis, 'wind': wind, 'dtype': dtype,
-            'lat_desc': rng.random() < 0.7, 'lev_desc': rng.random() < 0.7,
-            'date': rng.choice(['20240901', '20230228', '20241231']), 'u': us, 'v': vs,
+            'lat_desc': lat_desc, 'lev_desc': lev_desc, 'dir': force.get('dir', sid),
+            'date': rng.choice([d for d in DATES if d not in force.get('not_dates', ())]), 'u': us, 'v': vs,
             'const': consts if wind != 'varying' else None}
 
 
 def rotated_scene(sc, d_deg, sid):
     """same grid, uniform wind rotated clockwise by d degrees (float64 so that nothing is rounded)"""
     ph = math.radians(d_deg)
-    out = dict(sc, id=sid, dtype='f8')
+    out = dict(sc, id=sid, dtype='f8', dir=sid)
     us, vs, consts = [], [], []
     for (cu, cv) in sc['const']:
         ru, rv = cu * math.cos(ph) + cv * math.sin(ph), cv * math.cos(ph) - cu * math.sin(ph)
@@ -232,7 +240,7 @@ def write_scene(chk: Check, sc) -> Path:
     import numpy as np
     import pandas as pd
     import xarray as xr
-    d = chk.tmp / f'weather_{sc["id"]}'
+    d = chk.tmp / f'weather_{sc.get("dir", sc["id"])}'
     d.mkdir(parents=True, exist_ok=True)
     f = d / f'{sc["date"]}.nc'
     if f.exists():
@@ -278,9 +286,10 @@ def impl_query(chk: Check, sc, q):
     from AEIC.types import Location
     from AEIC.weather import Weather
     d = write_scene(chk, sc)
-    w = _weather_cache.get(sc['id'])
+    # one Weather object per directory: queries hop between its daily files and hours
+    w = _weather_cache.get(sc.get('dir', sc['id']))
     if w is None:
-        w = _weather_cache[sc['id']] = Weather(data_dir=d)
+        w = _weather_cache[sc.get('dir', sc['id'])] = Weather(data_dir=d)
     day = pd.Timestamp(sc['date'], tz='UTC')
     t = day + pd.Timedelta(hours=q['hour'], minutes=7 * (q['hour'] % 5))
     if q['use_point']:
@@ -410,12 +419,13 @@ def setup_config():
 
 def compact(sc, q):
     return {'scene': {k: sc[k] for k in ('id', 'levels', 'lats', 'lons', 'taxis', 'wind', 'dtype', 'lat_desc',
-                                         'lev_desc', 'date')}, 'q': q}
+                                         'lev_desc', 'date')} | {'dir': sc.get('dir', sc['id'])}, 'q': q}
 
 
-def judge(chk: Check, sc, q, io, partner=None):
-    """Property oracle on one implementation answer.  -> True if it passed."""
-    full = {'scene': sc, 'q': q, 'impl': io}
+def judge(chk: Check, sc, q, io, prior=()):
+    """Property oracle on one implementation answer.  -> True if it passed.
+    prior: the queries answered just before on the same Weather object (replayed first)."""
+    full = {'scene': sc, 'q': q, 'impl': io, 'history': [{'scene': s, 'q': qq} for s, qq in prior]}
     sl = slice_of(sc, q)
     h = heading_used(q)
     if io[0] == 'error':
@@ -497,8 +507,13 @@ def process(chk: Check, cases, variant, pairs=()):
     for sc, _ in cases:
         scenes[sc['id']] = sc
     impl = []
+    prior = []
+    hist: dict = {}
     try:
         for sc, q in cases:
+            h = hist.setdefault(sc.get('dir', sc['id']), [])
+            prior.append(list(h[-3:]))
+            h.append((sc, q))
             impl.append(impl_query(chk, sc, q))
     finally:
         close_weather()
@@ -507,14 +522,17 @@ def process(chk: Check, cases, variant, pairs=()):
     exch = True if variant is None else variant
     hdr = HEADER + ''.join(coq_scene_def(s) for s in scenes.values())
     model = chk.coq_eval(hdr, [coq_query(sc, q, exch) for sc, q in cases], shard=120)
-    for (sc, q), io, mo in zip(cases, impl, model):
+    for (sc, q), io, mo, pr in zip(cases, impl, model, prior):
         W = 0.0 if sc['wind'] == 'zero' else 1.0
         nontriv = io[0] == 'ok' and W > 0 and q['tas'] > 0
         chk.case(compact(sc, q), nontriv)
         chk.count('kind:' + q['kind'])
         chk.count('impl:' + io[0])
         chk.count(f'file:{sc["wind"]}/{sc["taxis"]}/{sc["dtype"]}')
-        passed = judge(chk, sc, q, io)
+        if pr and pr[-1][0]['id'] != sc['id']:
+            chk.count('seq:day-switch' + (':same-hour' if pr[-1][1]['hour'] == q['hour'] else ':other-hour')
+                      + ('/time-axis' if sc['taxis'] == 'dim24' else '/no-time-axis'))
+        passed = judge(chk, sc, q, io, pr)
         if mo is None:
             continue
         m = model_out(mo)
@@ -541,7 +559,8 @@ def load_corpus(chk):
 def run(chk: Check):
     chk.rule = ('synthetic ERA5-style NetCDF files (2-5 levels x 2-4 latitudes x 2-5 longitudes; zero / uniform / varying '
                 'wind; no time axis, scalar valid_time, 24-slice valid_time; float64/float32/int16; ascending or '
-                'descending level and latitude order) and queries (inside, on grid nodes, just outside each axis, above '
+                'descending level and latitude order; two or three daily files with different winds per directory, one Weather '
+                'object per directory asked A@H, B@H, A@H and across hours) and queries (inside, on grid nodes, just outside each axis, above '
                 '25 km, pure tail/head wind on uniform files, jointly rotated heading+wind pairs; heading via the point '
                 'or passed explicitly, incl. negative and > 360) from one PRNG stream; non-trivial = answered query with '
                 'non-zero wind and airspeed')
@@ -570,8 +589,31 @@ def run(chk: Check):
             force = {'wind': 'uniform', 'taxis': rng.choice(['none', 'scalar', 'dim24'])}
         sc = gen_scene(rng, sid, force)
         sid += 1
-        for _ in range(per):
-            cases.append((sc, gen_query(rng, sc)))
+        # two or three daily files with different winds in the same directory (same grid), so that one Weather
+        # object is asked A@H, B@H, A@H and also across different hours; with and without the time axis
+        group = [sc]
+        if k % 7 == 0 or rng.random() < 0.65:
+            for _ in range(rng.choice([1, 1, 2])):
+                sib = gen_scene(rng, sid, {'grid': (sc['levels'], sc['lats'], sc['lons'], sc['lat_desc'], sc['lev_desc']),
+                                           'dir': sc['dir'], 'not_dates': [g['date'] for g in group],
+                                           'taxis': sc['taxis'] if rng.random() < 0.7 else None,
+                                           'wind': rng.choice(['uniform', 'varying'])})
+                sid += 1
+                group.append(sib)
+        budget = per if len(group) == 1 else int(per * 1.6)
+        while budget > 0:
+            if len(group) > 1 and rng.random() < 0.45:
+                a, b = rng.sample(group, 2)
+                qa = gen_query(rng, a, rng.choice(['inside', 'inside', 'tail', 'node']))
+                qb = dict(gen_query(rng, b, rng.choice(['inside', 'inside', 'head'])), hour=qa['hour'])
+                if qb['kind'] in ('tail', 'head'):
+                    qb = dict(gen_query(rng, b, 'inside'), hour=qa['hour'])
+                cases += [(a, qa), (b, qb), (a, dict(qa))]
+                budget -= 3
+            else:
+                g = rng.choice(group)
+                cases.append((g, gen_query(rng, g)))
+                budget -= 1
         if sc['wind'] == 'uniform':
             # rotation pairs: same grid, wind rotated by d; heading h and h + d
             for _ in range(3):
@@ -592,9 +634,9 @@ def replay(chk: Check, rp):
     if 'scene' not in case or 'levels' not in case['scene'] or 'u' not in case['scene']:
         chk.broken('replay', 'replay file carries no self-contained case (broken obligation: re-run the check)')
         return
-    cases = [(case['scene'], case['q'])]
+    cases = [(h['scene'], h['q']) for h in case.get('history', [])] + [(case['scene'], case['q'])]
     pairs = []
     if case.get('partner'):
         cases.append((case['partner']['scene'], case['partner']['q']))
-        pairs = [(0, 1)]
+        pairs = [(len(cases) - 2, len(cases) - 1)]
     process(chk, cases, variant, pairs)
